@@ -248,7 +248,66 @@ def t_restart(ctx):
     ctx.check('C14.main_finished', bool(st.get('done')))
 
 
-TEMPLATES = {'k.dispatch': t_dispatch_kernel, 's1.flood': t_flood, 's1.restart': t_restart, 'tree': t_tree}
+def t_mixed_clock(ctx):
+    """Events whose event_created_at was supplied by the caller (replayed from a log, built by another process): time-zone aware or
+    naive, older or newer than "now" (chosen through the solver), onto a bus with a small history limit so that every dispatch
+    trims the history.  Each dispatch, from main and from inside a handler, either raises and leaves no trace or is accepted and
+    processed."""
+    import datetime
+    N = ctx.cfg.get('N', 2)
+    n = 4
+    kinds = [ctx.pick(f'k{i}', ('default', 'aware_old', 'naive_old', 'naive_new')) for i in range(n)]
+    ctx.new_loop(horizon=6)
+    bus = ctx.bus('A', max_history_size=N)
+    mk = {'default': lambda: {}, 'aware_old': lambda: dict(event_created_at=datetime.datetime(2020, 1, 1, tzinfo=datetime.timezone.utc)),
+          'naive_old': lambda: dict(event_created_at=datetime.datetime(2020, 1, 1, 12)),
+          'naive_new': lambda: dict(event_created_at=datetime.datetime(2090, 1, 1, 12))}
+    outcome = {}
+
+    def try_dispatch(inv, lab, kind):
+        e = ctx.ev(C, lab, event_timeout=30.0, **mk[kind]())
+        try:
+            inv.dispatch(bus, e)
+            outcome[lab] = 'accepted'
+        except Exception as ex:  # noqa
+            outcome[lab] = 'raise:' + type(ex).__name__
+
+    async def hP(h, ev):
+        try_dispatch(h, 'C2', kinds[2])
+        try_dispatch(h, 'C3', kinds[3])
+        return 'p'
+    ctx.on(bus, P, 'hP', hP)
+    ctx.on(bus, C, 'hC', ret='c')
+    st = {}
+
+    async def main():
+        m = ctx.main
+        try_dispatch(m, 'C0', kinds[0])
+        try_dispatch(m, 'C1', kinds[1])
+        m.dispatch(bus, ctx.ev(P, 'P1', event_timeout=30.0))
+        await asyncio.sleep(1)
+        await bus.wait_until_idle()
+        st['idle'] = True
+    ctx.run(main())
+    tr = Trace(ctx.records)
+    ctx.check('C14.idle_after', bool(st.get('idle')), why='wait_until_idle blocked')
+    p1 = ctx.events['P1']
+    kids = [k for r in p1.event_results.values() for k in r.event_children]
+    for lab, how in outcome.items():
+        e = ctx.events[lab]
+        n_run = tr.count('A', lab, 'hC')
+        if how == 'accepted':
+            sc = ctx.snap(e)
+            ctx.check('C14.accepted_processed', n_run == 1 and sc['status'] == 'completed' and sc['signal'] is True, ev=lab, n=n_run, got=(sc['status'], sc['signal']))
+            ctx.witness('accepted')
+        else:
+            ctx.witness('rejected')
+            ctx.check('C14.no_trace', e.event_id not in bus.event_history and not any(k is e for k in kids), ev=lab, how=how,
+                      in_history=e.event_id in bus.event_history, child=any(k is e for k in kids))
+            ctx.check('C14.rejected_not_run', n_run == 0, ev=lab, how=how, n=n_run)
+
+
+TEMPLATES = {'s1.mixed_clock': t_mixed_clock, 'k.dispatch': t_dispatch_kernel, 's1.flood': t_flood, 's1.restart': t_restart, 'tree': t_tree}
 
 
 def jobs(tier):
@@ -275,6 +334,7 @@ def jobs(tier):
             out.append(Job('C14', 's1.flood', t_flood, dict(n_range=[a, a + 9])))
             if a >= 50:
                 out.append(Job('C14', 's1.flood', t_flood, dict(n_range=[a, a + 9], retry=True)))
+    out.append(Job('C14', 's1.mixed_clock', t_mixed_clock, dict(N=2), witnesses=('accepted',)))
     out += mk('C14', 'roots3', S.roots3())
     out += mk('C14', 'child/await/k1', S.child('await', k=1))
     out += mk('C14', 'flood_idle', S.flood_idle())
